@@ -23,18 +23,22 @@ Proof. exact is_nearestb_spec. Qed.
 (* OcTreePath as coded (r,g,b packed in one u32, `& 0x808080`, `<< 1 & 0xfefefe`, shifts by
    21/14/7) is, for EVERY colour, the lane-wise bit path the octree theorems reason about
    (the model's insert uses the packed form). *)
-Theorem C13_octree_path : forall c, rgb_ok c = true -> path_packed c = path_of c.
+(* (model-internal: not counted as an obligation of the property) *)
+Lemma C13_octree_path : forall c, rgb_ok c = true -> path_packed c = path_of c.
 Proof. exact path_packed_eq. Qed.
 
 (* Machine words.  The leaf accumulators are modelled with the widths the source declares
    (Gen/TabOctree.v, regenerated every run; `+=` panics on overflow in the model as in a debug
-   build).  ASSUMPTION of the theorems below: an image has at most max_pixels = 2^56 pixels
-   (2^58 bytes of RGBA, beyond any allocation on 64-bit targets).  Under it no accumulator
-   overflows: 255 * 2^56 < 2^leaf_acc_bits and 2^56 < 2^leaf_count_bits; the k-d distance
-   3 * 255^2 fits its type; Rnd's state is the 32-bit word the model wraps at.  A narrower
-   declared type breaks this theorem (and translate/octree_types.py + props.d/C13.py compute the
-   smallest overflowing image as a failing input). *)
-Theorem C13_machine_words :
+   build).  The theorems named `_upto_2p56px` assume that an image (a colour list) has at most
+   max_pixels = 2^56 entries; that no accumulator overflows under this bound is proved INSIDE
+   them (invariants `ratio` and `mass` of OctreeProofs.wf_node: insert_rec_wf, prune_rec_wf,
+   oc_prune_wf).  The lemma below is only the arithmetic that connects the bound to the
+   declared widths: 255 * 2^56 < 2^leaf_acc_bits, 2^56 < 2^leaf_count_bits, the other counters
+   hold 2^56, 3 * 255^2 fits the k-d distance type, Rnd's state is the 32-bit word the model
+   wraps at, the f32 significand (24, derived from the declared element type of ColorError)
+   covers the 16 bits the slot bound needs.  A narrower declared type breaks it (the whole
+   file then fails to build) and props.d/C13.py turns the widths into a failing input. *)
+Lemma C13_machine_words :
   (forall n, (n <= max_pixels)%N -> (255 * n < leaf_acc_limit /\ n < leaf_count_limit)%N) /\
   leaf_acc_limit = (2 ^ leaf_acc_bits)%N /\ leaf_count_limit = (2 ^ leaf_count_bits)%N /\
   (max_pixels < 2 ^ info_leaf_bits /\ max_pixels < 2 ^ info_color_bits /\ max_pixels < 2 ^ info_min_bits /\
@@ -43,23 +47,24 @@ Theorem C13_machine_words :
   rnd_state_bits = 32%N /\ (16 <= color_error_significand_bits)%N.
 Proof. exact machine_words. Qed.
 
-(* Octree pipeline of ColorPalette::from_image: for every non-empty list of byte
-   colours and every requested size, insertion never panics, prune_until terminates
+(* Octree pipeline of ColorPalette::from_image: for every non-empty list of at most 2^56
+   byte colours and every requested size, insertion never panics, prune_until terminates
    within oc_measure rounds (its fuel) although cached infos go stale, and the
    palette has between 1 and max(k, 8) colours. *)
-Theorem C13_palette : forall (cs : list rgb) (k : N),
+Theorem C13_palette_upto_2p56px : forall (cs : list rgb) (k : N),
   cs <> [] -> Forall (fun c => rgb_ok c = true) cs -> (N.of_nat (length cs) <= max_pixels)%N ->
   exists t t' pal,
     oc_extend oc_new cs = Ok t /\ prune_until k t = Ok t' /\ build_palette t' = Ok pal /\
     (1 <= length pal)%nat /\ (N.of_nat (length pal) <= N.max k 8)%N.
 Proof. exact palette_bounds. Qed.
 
-(* Image::quantize on every non-empty rectangular image (subsampled or not), every
+(* Image::quantize on every non-empty rectangular image of at most 2^56 pixels (img_ok;
+   subsampled or not), every
    k >= 1, both dithering settings: it succeeds; palette bounds; the index image has
    the input's size; every index refers to a palette colour (for any dithering
    error: the bound holds for whatever colour is looked up); without dithering each
    pixel is mapped to a palette colour at minimal distance. *)
-Theorem C13_quantize : forall (im : img) (k : N) (dither : bool),
+Theorem C13_quantize_upto_2p56px : forall (im : img) (k : N) (dither : bool),
   img_ok im -> (1 <= k)%N ->
   exists pal q,
     quantize im k dither = Ok (pal, q) /\
@@ -79,7 +84,7 @@ Proof. exact kd_find_index. Qed.
 
 (* If the distinct colours fit max(k, 8) — in particular if they fit the requested
    size k — the octree prunes nothing and the palette contains every colour. *)
-Theorem C13_palette_exact : forall (cs : list rgb) (k : N),
+Theorem C13_palette_exact_upto_2p56px : forall (cs : list rgb) (k : N),
   Forall (fun c => rgb_ok c = true) cs -> (N.of_nat (length cs) <= max_pixels)%N ->
   (N.of_nat (length (nodup_rgb cs)) <= N.max k 8)%N ->
   exists t pal,
@@ -90,7 +95,7 @@ Proof. exact palette_exact. Qed.
 (* An image whose distinct colours fit the palette and that is below the
    subsampling threshold is reproduced exactly, with or without dithering:
    pal[q[r][c]] = im[r][c] for every pixel. *)
-Theorem C13_exact : forall (im : img) (k : N) (dither : bool),
+Theorem C13_exact_upto_2p56px : forall (im : img) (k : N) (dither : bool),
   img_ok im -> (1 <= k)%N ->
   (distinct_colors im <= N.max k 8)%N -> (sample_of im k < 2)%N ->
   exists pal q,
@@ -98,11 +103,13 @@ Theorem C13_exact : forall (im : img) (k : N) (dither : bool),
     Forall2 (Forall2 (fun p i => nth_error pal (N.to_nat i) = Some p)) im q.
 Proof. exact quantize_exact. Qed.
 
-(* Floyd-Steinberg slots stay within 255.0 (4080 sixteenths): one row of the dithered loop
-   carries the slot invariant from column to column whenever look-ups return byte colours;
-   `swap_slots`/`initial_slots` re-establish it between rows.  This is what makes every f32
-   operation of the code exact, i.e. what justifies modelling the errors in Z sixteenths. *)
-Theorem C13_dither_slots : forall (find : rgb -> outcome (N * rgb)),
+(* (auxiliary, about the Z model of the error rows only) ONE ROW of the dithered loop carries
+   the slot invariant (every slot within 4080 sixteenths = 255.0) from column to column
+   whenever look-ups return byte colours; QuantizeDither.swap_slots / initial_slots
+   re-establish it between rows.  Nothing here speaks about binary32: that the code's f32
+   values are then exactly these rationals is an argument in design/C13.md (multiples of
+   1/16 below 2^8 need 12 of the 24 significand bits), not a Coq statement. *)
+Lemma C13_dither_slots : forall (find : rgb -> outcome (N * rgb)),
   (forall q i c, find q = Ok (i, c) -> rgb_ok c = true) ->
   forall px col cur nxt ixs cur' nxt',
     Forall (fun c => rgb_ok c = true) px ->
@@ -154,6 +161,15 @@ Proof.
   - apply N.leb_le. vm_compute. reflexivity.
   - vm_compute. reflexivity.
 Qed.
+
+Example C13_dither_slots_nonvacuous :
+  let find := kd_find (build [(0, 0, 0); (255, 255, 255)]%N) in
+  slots_ok 0 (repeat err0 5) (repeat err0 5) /\
+  match quant_row find true 0 [(100, 100, 100); (100, 100, 100); (100, 100, 100)]%N (repeat err0 5) (repeat err0 5) with
+  | Ok (ixs, cur', nxt') => ixs = [0; 1; 0]%N /\ nth 2 nxt' err0 <> err0
+  | _ => False
+  end.
+Proof. cbv zeta. split; [apply initial_slots|vm_compute; split; [reflexivity|discriminate]]. Qed.
 
 Example C13_quantize_nonvacuous :
   img_ok [[(1,2,3); (200,2,3)]; [(1,2,3); (7,7,7)]]%N /\
